@@ -1852,12 +1852,28 @@ def specialise_selected_name(func):
             return leaves(e.body, conds + [(e.test, True)]) and leaves(e.orelse, conds + [(e.test, False)])
         return isinstance(e, ast.Constant)
 
+    local_defs = {n.name for n in func.body if isinstance(n, ast.FunctionDef)}
+    rebound = {n.id for n in ast.walk(func) if isinstance(n, ast.Name) and isinstance(n.ctx, (ast.Store, ast.Del))}
+
+    def leaf(e):
+        # a constant, or the name of a function defined (once) in this function's body: `law = twobody if .. else None; law()`
+        return isinstance(e, ast.Constant) or (isinstance(e, ast.Name) and e.id in local_defs and e.id not in rebound)
+
     def arms(e):
         out = []
-        while isinstance(e, ast.IfExp) and isinstance(e.body, ast.Constant):
+        while isinstance(e, ast.IfExp) and leaf(e.body):
             out.append((e.test, e.body))
             e = e.orelse
-        return (out, e) if isinstance(e, ast.Constant) and out else (None, None)
+        return (out, e) if leaf(e) and out else (None, None)
+
+    class _DefIsNone(ast.NodeTransformer):
+        """`<name of a local def> is None` is False"""
+        def visit_Compare(self, n):
+            self.generic_visit(n)
+            if len(n.ops) == 1 and isinstance(n.ops[0], (ast.Is, ast.IsNot)) and isinstance(n.left, ast.Name) and n.left.id in local_defs and n.left.id not in rebound \
+                    and isinstance(n.comparators[0], ast.Constant) and n.comparators[0].value is None:
+                return ast.copy_location(ast.Constant(value=isinstance(n.ops[0], ast.IsNot)), n)
+            return n
     body = func.body
     for i, st in enumerate(body):
         if not (isinstance(st, ast.Assign) and len(st.targets) == 1 and isinstance(st.targets[0], ast.Name) and isinstance(st.value, ast.IfExp)):
@@ -1873,13 +1889,16 @@ def specialise_selected_name(func):
         before = [n for b in body[:i] for n in ast.walk(b) if isinstance(n, ast.Name) and n.id == x]
         as_name = [c for r in rest for c in ast.walk(r) if isinstance(c, ast.Call) and isinstance(c.func, ast.Name) and c.func.id == "getattr" and len(c.args) == 2
                    and not c.keywords and isinstance(c.args[1], ast.Name) and c.args[1].id == x]
+        # ... or the selected local function is called: `law()`
+        as_name += [c for r in rest for c in ast.walk(r) if isinstance(c, ast.Call) and isinstance(c.func, ast.Name) and c.func.id == x
+                    and any(isinstance(v, ast.Name) for _, v in chain)]
         if len(stores) != 1 or before or not as_name or any(isinstance(n, (ast.FunctionDef, ast.ClassDef, ast.Lambda, ast.Global, ast.Nonlocal)) for r in rest for n in ast.walk(r)):
             continue
         # (the tests read nothing the statements could have changed in between: they all precede S in both forms)
 
         def copy_for(const):
             out = [_Subst({x: const}).visit(copy.deepcopy(r)) for r in rest]
-            out = [_Fold().visit(r) for r in out]
+            out = [_Fold().visit(_DefIsNone().visit(r)) for r in out]
             out = _prune_const_ifs(out)
             cut = next((k for k, r in enumerate(out) if isinstance(r, (ast.Raise, ast.Return))), None)
             return (out[:cut + 1] if cut is not None else out) or [ast.Pass()]
